@@ -629,4 +629,8 @@ def calculate_nd_bins(
         )
         for i in range(dim)
     ]
+    # Every axis gets a binning object of its own (an adaptive one grows in place)
+    for i in range(1, dim):
+        if any(bins[i] is previous for previous in bins[:i]):
+            bins[i] = bins[i].copy()
     return bins
